@@ -15,8 +15,8 @@ import (
 	"github.com/hack-pad/hackpadfs/mem"
 )
 
-// Names is the path alphabet: a, b, c and the string-prefix look-alike ab.
-var Names = []string{"a", "b", "c", "ab"}
+// Names is the path alphabet: a, b, c, the string-prefix look-alike ab and a dot-leading name.
+var Names = []string{"a", "b", "c", "ab", ".a"}
 
 // Perms are the permission arguments used for creation.
 var Perms = []uint32{0, 0o400, 0o600, 0o644, 0o755, 0o777}
